@@ -16,6 +16,7 @@ The inlined callee's closures stay separate bodies; `Body.extra_roots` lists the
 for the closures of "this function" (`bodies_of_item`) can include them (see `closures_of`).
 """
 import copy
+import re
 
 from .facts import Body, callee, callee_resolved, strip_generics
 
@@ -68,6 +69,58 @@ def eligible(fb, root, cb, keep, also):
     if also is not None and also(cb):
         return True
     return cb.file == root.file and cb.raw.get('vis') != 'Public'
+
+
+def _generic_map(t):
+    """{declared generic parameter name: actual argument} for a call terminator (`f` spells the declared names, `ga` the actuals)"""
+    f, ga = t.get('f') or '', t.get('ga') or []
+    if t.get('gn') and len(t['gn']) == len(ga):
+        return {a: b for a, b in zip(t['gn'], ga) if re.match(r'^[A-Za-z_]\w*$', a) and a != b}
+    names, i, n = [], 0, len(f)
+    while i < n:
+        j = f.find('::<', i)
+        if j < 0:
+            break
+        k, depth = j + 3, 1
+        start = k
+        while k < n and depth:
+            c = f[k]
+            if c == '<':
+                depth += 1
+            elif c == '>' and f[k - 1] != '-':
+                depth -= 1
+            elif c == ',' and depth == 1:
+                names.append(f[start:k].strip())
+                start = k + 1
+            k += 1
+        names.append(f[start:k - 1].strip())
+        i = k
+    if len(names) != len(ga):
+        return {}
+    return {a: b for a, b in zip(names, ga) if re.match(r'^[A-Za-z_]\w*$', a) and a != b}
+
+
+def _subst_types(blocks, m):
+    if not m:
+        return
+    rx = re.compile(r'(?<![\w:])(' + '|'.join(re.escape(k) for k in m) + r')(?![\w])')
+
+    def sub(x):
+        return rx.sub(lambda mm: m[mm.group(1)], x) if isinstance(x, str) else x
+    for nb in blocks:
+        for st in nb['st']:
+            if 'lty' in st:
+                st['lty'] = sub(st['lty'])
+            rv = st.get('rv')
+            if rv and 'ty' in rv:
+                rv['ty'] = sub(rv['ty'])
+        nt = nb['term']
+        if nt and nt['k'] == 'call':
+            for k in ('ga', 'aty'):
+                if k in nt:
+                    nt[k] = [sub(x) for x in nt[k]]
+            if 'fx' in nt:
+                nt['fx'] = sub(nt['fx'])
 
 
 def _async_body(fb, crate, cb):
@@ -156,6 +209,7 @@ def _inline_async(blocks, locals_, vars_, i, t, cb, co):
             vars_.append(v)
         cont, unwind, pdest = pt.get('t'), pt.get('u'), pt.get('dest')
         new_blocks = copy.deepcopy(cbody.raw['blocks'])
+        _subst_types(new_blocks, _generic_map(t))
         for nb in new_blocks:
             _shift(nb['st'], dl)
             nt = nb['term']
@@ -239,6 +293,9 @@ def inlined(fb, body, keep=(), also=None, depth=4, crate=None):
             raw['vars'].append(v)
         cont, unwind, dest = t.get('t'), t.get('u'), t.get('dest')
         new_blocks = copy.deepcopy(cb.raw['blocks'])
+        gm = _generic_map(t)
+        _subst_types(new_blocks, gm)
+        locals_[dl:] = [re.sub(r'(?<![\w:])(' + '|'.join(re.escape(k) for k in gm) + r')(?![\w])', lambda mm: gm[mm.group(1)], x) for x in locals_[dl:]] if gm else locals_[dl:]
         for j, nb in enumerate(new_blocks):
             _shift(nb['st'], dl)
             nt = nb['term']
